@@ -37,7 +37,7 @@ def scheduler_info(ctx):
     from ..index import ClassInfo as _CI
     if info["sem"] is None:
         for m in ci.methods.values():
-            fld = next(((dotted(d) or "")[:-len(".default")] for d in m.node.decorator_list if (dotted(d) or "").endswith(".default")), None)
+            fld = next(((d or "")[:-len(".default")] for d in m.decorator_names() if (d or "").endswith(".default")), None)
             if fld is None:
                 continue
             for n in walk_no_nested(m.node):
@@ -98,9 +98,8 @@ def scheduler_info(ctx):
     # semaphore default method
     info["sem_default"] = None
     for m in ci.methods.values():
-        for d in m.node.decorator_list:
-            dn = dotted(d) or ""
-            if info["sem"] and dn == f"{info['sem']}.default":
+        for dn in m.decorator_names():
+            if info["sem"] and (dn or "") == f"{info['sem']}.default":
                 info["sem_default"] = m
     ctx.shared["sched_info"] = info
     return info
